@@ -1,5 +1,6 @@
 import Driver.Util
 import Aurora.Model.PSlice
+import Aurora.Model.PSliceMemOps
 /-! Driver for C21: runs the PSlice model on the op lines of the harness. -/
 namespace Driver.C21
 open Aurora.PSlice Aurora.Proximity
@@ -17,66 +18,145 @@ def parseAddrs : List String → Option (List Addr)
 
 def joinOr (l : List String) : String := if l.isEmpty then "-" else ",".intercalate l
 
+/-! ### memory-level model run next to the list model
+
+`add`, `each … add …` and `stress` lines arrive as `<op> | tok…`: the capacities of all bins observed
+on the real slice right after the `Add` (the oracle for Go's `append` growth), for `stress` the six
+fresh addresses and the capacity observed after each round's single `Add`.  After every mutating op
+the driver prints `mem=len/cap[!],…` for the memory-level state (`!` = the bin's backing array
+changed during the op; nil, zero-size and real arrays are three different identities, as in Go where
+`make([]T, 0)` is the runtime's `zerobase`), which the harness compares with the real slice; and it
+prints `MEM-LIST-MISMATCH` if the abstraction of the memory-level state is not the list-level state
+(`C21_mem_refines_list` says this never happens), `ORACLE-INADMISSIBLE` if an observed capacity is
+smaller than the length of its bin. -/
+open Aurora.PSliceMem (MS MOp newM applyMOp runOps abs hdr Hdr eachBinM eachBinRevM)
+
+structure DS where
+  ps : PS
+  ms : MS
+
+def splitAnnot (op : List String) : List String × List String :=
+  match op.span (· ≠ "|") with
+  | (a, []) => (a, [])
+  | (a, _ :: b) => (a, b)
+
+def orcOf (an : List String) : Nat → Nat :=
+  let caps := an.filterMap Driver.parseNat
+  fun i => caps[i]?.getD 0
+
+def arrKey (h : Hdr) : Nat := if h.cap = 0 then (if h.arr = 0 then 0 else 1) else h.arr + 2
+
+def memLine (before after : MS) : String :=
+  "mem=" ++ ",".intercalate ((List.range after.maxBins).map (fun i =>
+    let h := hdr after.mem i
+    s!"{h.len}/{h.cap}" ++ (if arrKey (hdr before.mem i) ≠ arrKey h then "!" else "")))
+
+def verdict (ms : MS) (ps : PS) : String := if abs ms = ps then "" else " MEM-LIST-MISMATCH"
+
+def admissible (an : List String) (ms : MS) : String :=
+  if an.isEmpty || (List.range ms.maxBins).all (fun i => orcOf an i ≥ (hdr ms.mem i).len) then ""
+  else " ORACLE-INADMISSIBLE"
+
 structure It where
   n : Nat
   visited : List String
   ps : PS
+  ms : MS
 
 def mutate (kind : String) (addrs : List Addr) (s : PS) : PS :=
   if kind = "add" then add s addrs
   else if kind = "remove" then addrs.foldl remove s
   else s
 
-def callback (stopAt nextMod errAt mutAt : Nat) (kind : String) (addrs : List Addr)
+def mutateM (kind : String) (orc : Nat → Nat) (addrs : List Addr) (s : MS) : MS :=
+  if kind = "add" then applyMOp s (.add orc addrs)
+  else if kind = "remove" then runOps s (addrs.map MOp.remove)
+  else s
+
+/-- the callback of the harness; `onMem = false`: it updates the list-level slice (`It.ps`),
+    `onMem = true`: the memory-level one (`It.ms`) -/
+def callback (onMem : Bool) (orc : Nat → Nat) (stopAt nextMod errAt mutAt : Nat) (kind : String) (addrs : List Addr)
     (st : It) (p : Addr) (po : Nat) : It × Ctl :=
   let n := st.n + 1
-  let ps := if n = mutAt then mutate kind addrs st.ps else st.ps
-  ({ n := n, visited := s!"{po}:{hex p}" :: st.visited, ps := ps },
+  let ps := if n = mutAt && !onMem then mutate kind addrs st.ps else st.ps
+  let ms := if n = mutAt && onMem then mutateM kind orc addrs st.ms else st.ms
+  ({ n := n, visited := s!"{po}:{hex p}" :: st.visited, ps := ps, ms := ms },
    ctlOf (n = stopAt) (nextMod > 0 && n % nextMod = 0) (n = errAt))
 
-def step (st : Option PS) (op : List String) : Option PS × String :=
+/-- what the writer of the `stress` op does (harness/props/c21: `stress`), as memory-level ops -/
+def stressOps (fr : List Addr) (caps : List Nat) : List MOp :=
+  match fr with
+  | [f0, f1, f2, f3, f4, f5] =>
+    caps.flatMap (fun c =>
+      [.add (fun _ => 0) [f0, f1, f2], .add (fun _ => c) [f3], .remove f1, .add (fun _ => 0) [f4, f5, f4],
+       .remove f0, .remove f5, .remove f3, .remove f2, .remove f4])
+  | _ => []
+
+def step (st : Option DS) (opan : List String) : Option DS × String :=
+  let (op, an) := splitAnnot opan
   match op, st with
   | ["new", m, b], _ =>
     match Driver.parseNat m, Driver.hexToBytes b with
-    | some m, some b => if m < 1 ∨ m > 64 then (st, "bad-op") else (some (new m (toAddr b)), "ok")
+    | some m, some b =>
+      if m < 1 ∨ m > 64 then (st, "bad-op")
+      else (some { ps := new m (toAddr b), ms := newM m (toAddr b) }, "ok")
     | _, _ => (st, "bad-op")
   | _, none => (none, "noslice")
-  | "add" :: hs, some s =>
+  | "add" :: hs, some d =>
     match parseAddrs hs with
-    | some as => (some (add s as), "ok")
+    | some as =>
+      let ps := add d.ps as
+      let ms := applyMOp d.ms (.add (orcOf an) as)
+      (some { ps := ps, ms := ms }, s!"ok {memLine d.ms ms}{admissible an ms}{verdict ms ps}")
     | none => (st, "bad-op")
-  | ["remove", h], some s =>
+  | ["remove", h], some d =>
     match Driver.hexToBytes h with
-    | some a => (some (remove s (toAddr a)), "ok")
+    | some a =>
+      let ps := remove d.ps (toAddr a)
+      let ms := applyMOp d.ms (.remove (toAddr a))
+      (some { ps := ps, ms := ms }, s!"ok {memLine d.ms ms}{verdict ms ps}")
     | none => (st, "bad-op")
-  | ["exists", h], some s =>
+  | ["exists", h], some d =>
     match Driver.hexToBytes h with
-    | some a => (st, Driver.boolStr («exists» s (toAddr a)))
+    | some a => (st, Driver.boolStr («exists» d.ps (toAddr a)))
     | none => (st, "bad-op")
-  | ["sizes"], some s =>
+  | ["sizes"], some d =>
+    let s := d.ps
     let bs := (List.range s.maxBins).map (fun i => toString (binSize s i))
     let se := match shallowestEmpty s with | some i => toString i | none => "none"
     (st, s!"len={length s} bins={joinOr bs} over={binSize s s.maxBins} se={se}")
-  | ["binpeers", b], some s =>
+  | ["binpeers", b], some d =>
     match Driver.parseNat b with
-    | some b => if b > 255 then (st, "bad-op") else (st, joinOr ((binPeers s b).map hex))
+    | some b => if b > 255 then (st, "bad-op") else (st, joinOr ((binPeers d.ps b).map hex))
     | none => (st, "bad-op")
-  | "each" :: dir :: stopAt :: nextMod :: errAt :: mutAt :: kind :: hs, some s =>
+  | "each" :: dir :: stopAt :: nextMod :: errAt :: mutAt :: kind :: hs, some d =>
     match Driver.parseNat stopAt, Driver.parseNat nextMod, Driver.parseNat errAt, Driver.parseNat mutAt, parseAddrs hs with
     | some stopAt, some nextMod, some errAt, some mutAt, some as =>
       if (dir ≠ "fwd" ∧ dir ≠ "rev") ∨ (kind ≠ "add" ∧ kind ≠ "remove" ∧ kind ≠ "-") then (st, "bad-op") else
-      let cb := callback stopAt nextMod errAt mutAt kind as
-      let init : It := { n := 0, visited := [], ps := s }
+      let init : It := { n := 0, visited := [], ps := d.ps, ms := d.ms }
+      -- list level: the bin is a list value taken when the bin is reached
+      let cb := callback false (orcOf an) stopAt nextMod errAt mutAt kind as
       let (r, ok) := if dir = "fwd" then eachBin (·.ps) cb init else eachBinRev (·.ps) cb init
-      (some r.ps, s!"{if ok then "ok" else "err"} {joinOr r.visited.reverse}")
+      -- memory level: header copied when the bin is reached, elements loaded one by one
+      let cbM := callback true (orcOf an) stopAt nextMod errAt mutAt kind as
+      let (rm, okm) := if dir = "fwd" then eachBinM (·.ms) cbM init else eachBinRevM (·.ms) cbM init
+      let same := decide (r.visited = rm.visited) && (ok == okm)
+      let adm := if kind = "add" && r.n ≥ mutAt && mutAt > 0 then admissible an rm.ms else ""
+      (some { ps := r.ps, ms := rm.ms },
+       s!"{if ok then "ok" else "err"} {joinOr r.visited.reverse} {memLine d.ms rm.ms}{adm}{verdict rm.ms r.ps}{if same then "" else " MEM-LIST-MISMATCH(iteration)"}")
     | _, _, _, _, _ => (st, "bad-op")
-  | ["stress", n], some _ =>
-    -- concurrent writer of fresh addresses that restores the slice; observable state unchanged
+  | ["stress", n], some d =>
+    -- concurrent writer of fresh addresses that restores the slice: the list-level state is
+    -- unchanged; the memory-level model runs the writer's operations
     match Driver.parseNat n with
-    | some _ => (st, "ok")
+    | some _ =>
+      let fr := (an.take 6).filterMap (fun h => (Driver.hexToBytes h).map toAddr)
+      let caps := (an.drop 6).filterMap Driver.parseNat
+      let ms := runOps d.ms (stressOps fr caps)
+      (some { ps := d.ps, ms := ms }, s!"ok {memLine d.ms ms}{verdict ms d.ps}")
     | none => (st, "bad-op")
   | _, _ => (st, "bad-op")
 
-def handler : Driver.Handler := { σ := Option PS, init := none, step := step }
+def handler : Driver.Handler := { σ := Option DS, init := none, step := step }
 
 end Driver.C21
